@@ -172,7 +172,13 @@ def get_extended_status(msg, start) -> Optional[str]:
                 extended_status = UDINT.decode(stream)
             else:
                 return "[ERROR] Extended Status Size Unknown"
-        return f"{EXTEND_CODES[status][extended_status]}  ({status:0>2x}, {extended_status:0>2x})"
+        try:
+            text = EXTEND_CODES[status][extended_status]
+        except KeyError:
+            if extended_status_size == 0:
+                return None
+            text = "Unknown Extended Status"  # still report the code the target sent
+        return f"{text}  ({status:0>2x}, {extended_status:0>2x})"
     except Exception:
         return None
 
